@@ -120,6 +120,8 @@ impl Worker {
             } else {
                 info!("_process_tx for tx: {} returned none", entry.tx.hash());
             }
+            #[cfg(feature = "verif-hooks")]
+            crate::verif::work(7);
         }
     }
 }
